@@ -85,6 +85,7 @@ class WcMachine(Machine):
             limit_bias=w.choice([0, 1, 2, 3, 5, 8, 16, 16, 30]),
             addr_share=w.choice([0.0, 0.3, 0.6]),
             bad_lines=w.random() < 0.25,
+            log_faults=w.random() < 0.3,
         )
 
     def reset(self, cfg):
@@ -237,7 +238,10 @@ class WcMachine(Machine):
                     line = self._gen_bad_line(w)
                 else:
                     line = self._gen_wc_line(w, slot["limit"])
-                return dict(op="wc_set_line", t=t, line=line)
+                op_ = dict(op="wc_set_line", t=t, line=line)
+                if cfg.get("log_faults") and st.f.random() < 0.3:
+                    op_["log_fail"] = 1
+                return op_
             if slot["kind"] == "grp":
                 return dict(op="grp_set_member", t=t, i=w.randint(0, 9),
                             line=self._gen_addr_line(w, slot["limit"], slot["plat"], "Address"))
@@ -250,6 +254,8 @@ class WcMachine(Machine):
                 return dict(op="addr_set_limit", t=t, k=w.choice([0, 1, 2, 3, 5, 16, 30]))
         if r < 0.60:
             return dict(op="set_platform", t=t, p=w.choice(["ios", "nxos"]))
+        if slot["kind"] == "wc" and r < 0.64 and len(live) < 6:
+            return dict(op="wc_clone_uuid", t=t)
         if slot["kind"] == "wc":
             what = s.choice(["ipnets", "ipnets", "ipnets", "ipnet", "line", "data", "copy",
                              "ipnets_scribble"])
@@ -540,8 +546,25 @@ class WcMachine(Machine):
                 self.probes["evicted_between"] += 1
             else:
                 self.probes["stale_window"] += 1
+        from .seams import SinkFault
+        self.log.arm(op.get("log_fail"))
         try:
-            w.line = line
+            try:
+                w.line = line
+            finally:
+                fired = bool(self.log.faulty and self.log.faulty.fired)
+                self.log.arm(None)
+        except SinkFault:
+            # the log sink failed in the middle of the assignment: like a refused assignment the
+            # object may hold the old or the new line, but what it serves must be what it reports
+            self.faults["sink_failed_mid_assignment"] += 1
+            slot["lines"] = {old, (base & ~mask & ALL, mask)}
+            slot["rejected"] = True
+            self._check_wc(w, slot, f"after set_line({line!r}) interrupted by a failing log sink")
+            b2, m2 = parse_wc_line(w.line)
+            slot["base"], slot["mask"] = b2, m2
+            slot["lines"] = {(b2, m2)}
+            return "SinkFault"
         except NetmaskValueError:
             if k <= limit:
                 self._fail("C05.reject-iff", f"set_line {line!r} limit={limit} k={k} rejected")
@@ -564,6 +587,28 @@ class WcMachine(Machine):
         if slot["queried"]:
             slot["reassigned_after_q"] = True
         self._check_wc(w, slot, f"after set_line({line!r})", deep=False)
+        return "ok"
+
+    def _op_wc_clone_uuid(self, op):
+        """A second live object rebuilt from data(uuid=True): same identifier, own state."""
+        i, slot = self._slot(op["t"])
+        if slot is None or slot["kind"] != "wc":
+            return "noop"
+        w = slot["obj"]
+        k = len(split_mask(slot["mask"])[1])
+        try:
+            d = {k_: v for k_, v in w.data(uuid=True).items()
+                 if k_ in ("line", "max_ncwb", "platform", "version", "note", "uuid")}
+            c = Wildcard(**d)
+        except NetmaskValueError:
+            if k <= slot["limit"]:
+                self._fail("C05.reject-iff", "rebuild from data(uuid=True) rejected")
+            return "NetmaskValueError"
+        new = dict(slot, obj=c, lines=set(slot["lines"]), queried=False, cleared_since_q=False)
+        new.pop("reassigned_after_q", None)
+        self._put(new)
+        self.probes["same_uuid_twins"] += 1
+        self._check_wc(c, new, "rebuild from data(uuid=True)")
         return "ok"
 
     def _op_wc_set_limit(self, op):
